@@ -638,13 +638,89 @@ def create_cases():
     return out
 
 
+def call_prank_cases():
+    """SEVM.call consults (and thereby consumes) the prank exactly once for EVERY target: a contract with code, an
+    account without code (EOA / not yet deployed), and the value it sends is debited from the pranked sender"""
+    from contracts import c09
+
+    out = []
+    for target in ("account with code", "account without code"):
+        for scheme in ("CALL", "STATICCALL"):
+
+            def harness(interp, target=target, scheme=scheme):
+                ctx = interp.ctx
+                sevm, ex, V, marker, callee_code = c09.setup_call(scheme, False, None)
+                to_alias = c09.CALLEE
+                if target == "account without code":
+                    del ex.code[c09.CALLEE]
+                    to_alias = None
+                S, O = z3.BitVec("pranked_sender", 160), z3.BitVec("pranked_origin", 160)
+                asked = []
+                interp.contracts["halmos.sevm:Exec.resolve_prank"] = lambda i, a, k: (asked.append(a[1]), (S, O))[1]
+                moved = []
+                real_transfer = hs.SEVM.__dict__["transfer_value"]
+
+                def transfer(i, a, k):
+                    moved.append((a[2], a[3]))
+                    return i.call(real_transfer, a, k, bypass_contract=True) if False else None
+
+                interp.contracts["halmos.sevm:SEVM.transfer_value"] = transfer
+                wl = hs.Worklist()
+                try:
+                    interp.call(hs.SEVM.__dict__["call"], [sevm, ex, c09.SCHEMES[scheme], to_alias, wl], {})
+                except PathEnd:
+                    raise
+                except BaseException as e:  # noqa
+                    from pyvc.interp import _ENGINE
+
+                    if isinstance(e, _ENGINE):
+                        raise
+                    ctx.oblige(f"no-exception[{type(e).__name__}]", z3.BoolVal(False), info={"msg": str(e)[:200]})
+                    return
+                ok = len(asked) == 1
+                ctx.oblige("the prank record is consulted exactly once by this call, whatever the target is (a one-shot prank is consumed by the next call)", z3.BoolVal(ok), info={"consulted": len(asked)})
+                t = asked[0] if asked else None
+                tz = t.as_z3() if hasattr(t, "as_z3") else t
+                ctx.oblige("it is consulted for this call's target address", z3.simplify(tz) == z3.simplify(c09.CALLEE) if ok and z3.is_bv(tz) and tz.size() == 160 else z3.BoolVal(False))
+                if scheme == "CALL" and moved:
+                    frm = moved[0][0]
+                    fz = frm.as_z3() if hasattr(frm, "as_z3") else frm
+                    ctx.oblige("the value sent by a pranked CALL is debited from the pranked sender", fz == S if z3.is_bv(fz) and fz.size() == 160 else z3.BoolVal(False), info={"from": str(fz)[:80]})
+
+            out.append(Case(f"{PROP}/sevm.SEVM.call#prank-resolution", f"{scheme} to an {target}", harness, replay=replay_prank_eoa, sources=("halmos.sevm:SEVM.call",)))
+    return out
+
+
+def replay_prank_eoa(r):
+    """real SEVM.call: vm.prank(A) then a CALL to an account without code, then a second call"""
+    from contracts import c09
+
+    sevm, ex, V, marker, callee_code = c09.setup_call("CALL", False, z3.BitVecVal(0, 256))
+    del ex.code[c09.CALLEE]
+    A = z3.BitVecVal(0xA11CE, 160)
+    ex.context.prank.prank(A)
+    wl = hs.Worklist()
+    try:
+        list(sevm.call(ex, c09.SCHEMES["CALL"], None, wl) or [])
+    except Exception as e:  # noqa
+        return {"reproduced": None, "detail": f"call raised {type(e).__name__}: {e}"}
+    still = bool(ex.context.prank)
+    # the continuation may be a different Exec pushed on the worklist
+    nxt = wl.pop()
+    if nxt is not None:
+        still = bool(nxt.context.prank)
+    if still:
+        return {"reproduced": True, "detail": "vm.prank(A); CALL to an account without code: the one-shot prank is still active after the call, so it will change msg.sender of a later, unrelated call", "inputs": "prank(A); CALL(eoa)"}
+    return {"reproduced": False, "detail": "a one-shot prank is consumed by a call to an account without code"}
+
+
 def build_cases(tier="quick"):
     # block-setting cheatcodes assign fields of ex.block in place: sibling paths must own their Block (C02/C20)
     from contracts import c02, c20
 
     ref = [Case(f"{PROP}/sevm.SEVM.create_branch#block-ownership", c.case, c.harness, replay=c.replay, sources=c.sources) for c in c02.path_cases() if "create_branch" in c.unit]
     ref += [Case(f"{PROP}/" + c.unit.split("/", 1)[1] + "#block-ownership", c.case, c.harness, replay=c.replay, sources=c.sources) for c in c20.fork_cases() if c.unit.endswith(("create_branch", "run_message"))]
-    return prank_cases() + resolve_prank_cases() + prank_arm_cases() + setter_cases() + create_cases() + ref
+    return prank_cases() + resolve_prank_cases() + prank_arm_cases() + setter_cases() + create_cases() + call_prank_cases() + ref
 
 
 def grounds():
